@@ -121,6 +121,12 @@ def build(case):
     sizes = A.symbolic_expression_sizes.get_or_insert(m)
     for bi, blk, off, sy, addend, size in pending_exprs:
         bi.symbolic_expressions[blk.offset + off] = gtirb.SymAddrConst(addend, B.sym[sy])
+    if case.get("table_seed") is not None:
+        # interval-keyed tables are not filled in offset order (they are not after an earlier rewrite either)
+        import random as _random
+
+        _random.Random(case["table_seed"]).shuffle(pending_exprs)
+    for bi, blk, off, sy, addend, size in pending_exprs:
         sizes[gtirb.Offset(bi, blk.offset + off)] = size
     # functions
     flat = [d for key, sname in sections for d in case.get(key if key == "text" else "sect:" + sname, [])]
@@ -488,6 +494,24 @@ def gen_case(rng, nblocks=None, with_data=True, with_funcs=True, nedits=None, cf
         case["sections"] = [".data"]
         case["sect:.data"] = ds
     case["edits"] = gen_edits(rng, case, nedits)
+    if rng.random() < 0.5:
+        case["table_seed"] = rng.randrange(1 << 30)
+    if nedits is None and rng.random() < 0.12:
+        # a call site replaced by code that calls the same function again; a ret replaced by a call of its own function
+        untouched = [i for i, d in enumerate(text) if d["kind"] == "code" and d["insns"][-1][0] in ("call", "ret")
+                     and not any(e["block"] == i and e.get("all") is None for e in case["edits"])]
+        if untouched:
+            i = rng.choice(untouched)
+            d = text[i]
+            offs = block_layout(d)
+            last = d["insns"][-1]
+            if last[0] == "call":
+                asm = rng.choice(["pushq %%rax\ncall %s\npopq %%rax" % last[1], "call %s" % last[1], "nop\ncall %s" % last[1]])
+            else:
+                entry = next((y["name"] for x in text if x["kind"] == "code" and x.get("func") == d.get("func") and x.get("entry") and d.get("func") is not None
+                              for y in x["syms"] if not y.get("at_end")), None)
+                asm = "call %s\nret" % entry if entry else "nop\nret"
+            case["edits"].append({"op": "replace", "block": i, "off": offs[-2], "len": offs[-1] - offs[-2], "asm": asm})
     # module entry point, DT_INIT and DT_FINI on code blocks
     code_idx = [i for i, d in enumerate(text) if d["kind"] == "code"]
     for key, p in (("entry", 0.25), ("init", 0.2), ("fini", 0.2)):
